@@ -1,4 +1,5 @@
 import Driver.Wire
+import Driver.Spec
 /-
   csmodel: the executable face of the Lean model.  One request per line on stdin, one reply line
   per request on stdout.  Pure function of its input.
@@ -14,6 +15,7 @@ def respond (line : String) : String :=
     | "W" :: args => cmdW args
     | "E" :: args => cmdE (" ".intercalate args :: rest)
     | "D" :: args => cmdD (" ".intercalate args :: rest)
+    | "S" :: args => cmdS args
     | _ => "bad"
 
 partial def loop (hin hout : IO.FS.Stream) : IO Unit := do
